@@ -70,6 +70,9 @@ pub struct Fired {
     /// reads of standard input answered EAGAIN for a while (a stalled writer on a non-blocking
     /// pipe): the tool may give up with an I/O error or wait and read everything
     pub stdin_eagain: bool,
+    /// writes to stdout/stderr answered EAGAIN for a while (a non-blocking pipe with a slow
+    /// reader): the tool may give up (a failed standard stream) or wait and write everything
+    pub std_stream_eagain: bool,
     /// files on which one read failed transiently (ETIMEDOUT/EAGAIN/EIO once, fine afterwards):
     /// the tool may report them as unreadable or try again and read everything
     pub transient_read: BTreeSet<String>,
@@ -162,6 +165,13 @@ pub fn fired(trace: &[TraceEvent]) -> Fired {
             "getcwd" => f.cwd_failed = true,
             "thread" => f.thread_refused = true,
             "eagain_read" if ev.ret < 0 && ev.target == "@0" => f.stdin_eagain = true,
+            "eagain_write" if ev.ret < 0 => {
+                // judged like a failed standard stream (the runtime's last flush at exit ignores
+                // errors, so even exit status 0 cannot promise that everything went out); what did
+                // go out has to be a prefix of the right text
+                f.std_stream_eagain = true;
+                f.std_stream_failed = true;
+            }
             "tread" if ev.ret < 0 => {
                 f.transient_read.insert(ev.target.clone());
             }
